@@ -19,6 +19,16 @@ def align_up(v, k):
     return ((v + m - 1) // m) * m
 
 
+def weighted(*pairs):
+    """one_of with integer weights. (one_of de-duplicates identical strategy *objects*, so repeating
+    an object does not weight it; each repetition is wrapped in its own .map().)"""
+    out = []
+    for w, s in pairs:
+        for _ in range(w):
+            out.append(s.map(lambda x: x))
+    return st.one_of(*out)
+
+
 # ----------------------------------------------------------------------------- mock CSR registers
 
 class MockReg(wiring.Component):
